@@ -60,10 +60,10 @@ CHECKS["C18"] = dict(cat=MC, engine="E2 xseq (single-node mutation enumeration t
    text="Every YAML node of three base documents is deleted, retyped (10 values), duplicated or given special names and loaded exactly as main() does; every member digraph on 1-2 (thorough 3) balancers + direct is loaded and probed with one request per balancer in a child process; a rule list with every field mutated (16 values) and 10 nesting forms at depths 10..10000 (thorough 100000) is posted through the real handler in a child process; 51 configuration mutants go through the real binary's --test, start-up, one request per listener, a rule POST naming every connector and a GC pass.",
    note="A child process dying stands for the proxy dying. load() mirrors main()'s sequence (Config::load's own validation and clap handling only via the real binary). Kernel scheduling uncontrolled in the E4 part.",
    ref="DESIGN.md §3 C18")
-CHECKS["C16"] = dict(cat=MC, engine="E1 xsched (real registry + GC task + access log + API handlers, scripted clients)",
-   technique="stateless exhaustive schedule exploration (deviation bound 1, thorough 2) of 1-3 connections over 7 outcomes with observers and registry-lock holders; final live/history/access-log compared with a list reference",
-   text="Connections with every outcome (relayed, relayed with early data, denied, connect failed, aborted mid-transfer, handshake garbage, handshake EOF) run through the real create_context / h11c_handshake / process_request / relay with the real GC task, access log and API handlers; an observer calls /live at every position and a holder task keeps the alive or terminated lock across a scheduling point; after the last end and two GC periods: ids distinct, nothing live, history newest-first and bounded, every connection exactly once in the log, truthful listener/source/target/upstream, lifecycle grammar with exactly one terminal state, byte counters = payload relayed.",
-   note="Access-log file I/O runs on tokio's blocking pool (real threads): the closing phase is executed but not branched on. Timestamps not compared. Only the HTTP-style listener path is in memory.",
+CHECKS["C16"] = dict(cat=MC, engine="E1 xsched (real registry + GC task + access log + API handlers, scripted clients) + E4 real binary (long history per configuration)",
+   technique="stateless exhaustive schedule exploration (deviation bound 1, thorough 2) of 1-3 connections over 7 outcomes with observers and registry-lock holders; final live/history/access-log compared with a list reference; real-socket operation-pair enumeration over outcome x listener with checkpoints, close-order permutations and log rotation",
+   text="Connections with every outcome (relayed, relayed with early data, denied, connect failed, aborted mid-transfer, handshake garbage, handshake EOF) run through the real create_context / h11c_handshake / process_request / relay with the real GC task, access log and API handlers; an observer calls /live at every position and a holder task keeps the alive or terminated lock across a scheduling point; after the last end and two GC periods: ids distinct, nothing live, history newest-first and bounded, every connection exactly once in the log, truthful listener/source/target/upstream, lifecycle grammar with exactly one terminal state, byte counters = payload relayed. Real binary, per (historySize in 0/1/3/100, useSplice): ordered pairs over 10 outcomes x {http, https, socks5, socks4, reverse} strictly one after the other, trios held open together and closed in all 6 orders with /live compared at each step, two concurrent bursts larger than the history with the log renamed and reopened (POST /logrotate, SIGUSR1) mid-burst; checkpoints compare /live, /history and the log files with what clients and origins did.",
+   note="Access-log file I/O runs on tokio's blocking pool (real threads): the closing phase is executed but not branched on. Timestamps not compared. Only the HTTP-style listener path is in memory. E4 part: kernel scheduling uncontrolled; buffered log lines are flushed by a reopen before the log is read; UDP sessions, QUIC and TPROXY listeners are not in the real-socket history.",
    ref="DESIGN.md §3 C16")
 CHECKS["C01"] = dict(cat=MC, engine="E1 xsched (real handshake -> routing -> upstream codec -> callbacks -> copy_bidi over scripted endpoints) + E4 real binary (two-hop pairing matrix)",
    technique="stateless exhaustive exploration (deviation bound 1, thorough 2) of schedules, 1-byte segmentations and write windows of the real relay chain for 4 upstream codecs; exact stream equality oracle; two-tunnel isolation; real-socket enumeration of the listener x connector x TLS x useSplice x bufferSize pairing matrix with bulk, early-data, origin-first and slow-receiver scripts",
@@ -135,7 +135,7 @@ def main():
         "engines": [
             {"name": "E1 xsched", "path": "harness/src/verif/xsched.rs", "serves_properties": ["C01", "C04", "C06", "C14", "C15", "C16"], "kind_free_text": "stateless deviation-bounded DFS over task schedules and scripted environment answers of real async code"},
             {"name": "E3 loom", "path": "harness/src/verif/c17.rs", "serves_properties": ["C17"], "kind_free_text": "loom exhaustive interleavings of the real load balancer (feature loomlb => cfg(redproxy_verif_loom))"},
-            {"name": "E4 xnet", "path": "e4/", "serves_properties": ["C01", "C04", "C05", "C06", "C07", "C10", "C13", "C14", "C15", "C18", "C19"], "kind_free_text": "real-socket script/fault enumeration against the real binary (Python drivers, kernel scheduling uncontrolled)"},
+            {"name": "E4 xnet", "path": "e4/", "serves_properties": ["C01", "C04", "C05", "C06", "C07", "C10", "C13", "C14", "C15", "C16", "C18", "C19"], "kind_free_text": "real-socket script/fault enumeration against the real binary (Python drivers, kernel scheduling uncontrolled)"},
             {"name": "E2 xseq", "path": "harness/src/verif/", "serves_properties": [p for p in CHECKS], "kind_free_text": "bounded-exhaustive operation-sequence / input-shape enumeration on the real code vs reference model"},
         ],
         "checks": checks,
